@@ -15,7 +15,13 @@ fn main() {
     });
     let mut c = connect(&server);
     c.set_read_timeout(Some(Duration::from_millis(1500))).unwrap();
-    send(&mut c, b"GET /a HTTP/2.0\r\nHost: a\r\n\r\n");
+    // `c10_version body`: the rejected request carries a body, which must be skipped, not parsed as the next request
+    let with_body = std::env::args().nth(1).map_or(false, |a| a == "body");
+    if with_body {
+        send(&mut c, b"POST /a HTTP/2.0\r\nHost: a\r\nContent-Length: 27\r\n\r\nGET /hidden HTTP/1.1\r\nX: y\r\n");
+    } else {
+        send(&mut c, b"GET /a HTTP/2.0\r\nHost: a\r\n\r\n");
+    }
     let mut buf = [0u8; 2048];
     use std::io::Read;
     let n1 = c.read(&mut buf).unwrap_or(0);
